@@ -37,6 +37,10 @@ def clause_of(status, detail):
         return detail.split(" ::")[0].strip()
     if status == "ubsan":
         return "ub-in-translation"
+    if status == "race":
+        # "<where> <kind> <scope>; ..." - one canonical representative: the last in sorted order (write-write if present)
+        f = max(x.strip() for x in detail.split("[")[0].split(";")).split()
+        return "race:%s:%s" % (f[0], f[1])
     return status          # launch-error, exception
 
 
@@ -52,8 +56,10 @@ def judge(c, programs, built, observations):
             if v.startswith("CRASH"):
                 raw.append(("translator-crash", m, p, None, v))
         for (m, n, status, cells, written, detail) in observations.get(p.name, []):
-            if status == "ok":
+            if status in ("ok", "monitor"):
                 continue
+            if status == "timeout":
+                c.harness_error("%s [%s] N=%s: %s" % (p.desc(), m, n, detail))
             raw.append((clause_of(status, detail), m, p, n, detail))
     single_fail = set()
     for clause, m, p, n, detail in raw:
@@ -63,40 +69,80 @@ def judge(c, programs, built, observations):
     for clause, m, p, n, detail in raw:
         feat = attribute(p.feats, clause, m, single_fail)
         sig = "%s:%s:%s" % (clause, m, feat)
-        what = "%s [%s]%s: %s" % (p.desc(), m, (" N=%d" % n) if n is not None else "", detail)
+        what = "%s [%s]%s: %s" % (p.desc(), m, (" N=%d" % n) if (n is not None and n >= 0) else "", detail)
         r = p.replay_obj()
         r.update({"mode": m, "N": n})
         out.append((sig, what, r))
     return out
 
 
-def build_and_run(c, programs, modes, env, log, deadline):
+def race_pass(p):
+    """programs that get the additional race pass: the base kernel and every program in which work-items communicate
+    (@shared, @atomic) or keep per-item state across inner loops (@exclusive)"""
+    return not p.feats or bool(set(p.feats) & {"shared", "atomic", "exclusive"})
+
+
+def build_and_run(c, programs, modes, env, log, deadline, chunk_size=None):
     xlate = hs.compile_xlate(c)
     xl = hs.translate_all(xlate, programs, modes, os.path.join(c.scratch, "xl"), env)
     log("translated %d programs x %d modes" % (len(programs), len(modes)))
     b = hs.Builder(os.path.join(c.scratch, "build"), env)
     b.prepare()
+    if chunk_size is None:
+        # one executable per chunk of programs: about one chunk per core, at most 9 programs per chunk
+        chunk_size = max(1, min(9, -(-len(programs) // NCPU)))
+    chunks = [programs[i:i + chunk_size] for i in range(0, len(programs), chunk_size)]
     built, observations = {}, {}
     sem = threading.BoundedSemaphore(NCPU)
     complete = [True]
 
-    def work(p):
+    def run_programs(tag, progs, infos):
+        out = {}
+        for p in progs:
+            obs = []
+            info = infos[p.name]
+            if info["exe"]:
+                with sem:
+                    obs += hs.run_all(info["exe"], p.name, info["modes"], env, os.path.dirname(info["exe"]))
+            out[p.name] = obs
+        racers = [p for p in progs if race_pass(p) and infos[p.name]["exe"]]
+        if racers:
+            # race pass: device TUs recompiled with -fsanitize=thread, conflict monitor of engines/gpuemu/race_runtime.cpp
+            with sem:
+                rexe = b.build_race_exe(tag, progs, infos)
+            for p in racers:
+                if rexe:
+                    with sem:
+                        robs = hs.run_all(rexe, p.name, infos[p.name]["modes"], env, os.path.dirname(rexe), race=True)
+                    # everything but races was already judged on the ASan executable
+                    out[p.name] += [o for o in robs if o[2] in ("race", "monitor", "timeout")]
+        return out
+
+    def work(job):
+        tag, progs = job
         if time.time() > deadline:
             complete[0] = False
-            return p.name, {"exe": None, "modes": [], "compile_failures": {}, "rejected": {}, "skipped": True}, []
+            return dict((p.name, {"exe": None, "modes": [], "compile_failures": {}, "rejected": {}, "skipped": True}) for p in progs), {}
         with sem:
-            info = b.build_program(p, xl, modes)
-        obs = []
-        if info["exe"]:
-            for m in info["modes"]:
+            infos = b.build_chunk(tag, progs, xl, modes)
+        if infos is None:
+            # a TU of the chunk does not compile: every program on its own (attributes the failure)
+            infos, obs = {}, {}
+            for p in progs:
                 with sem:
-                    obs += hs.run_backend(info["exe"], m, env, os.path.dirname(info["exe"]))
-        return p.name, info, obs
+                    one = b.build_chunk(tag + "-" + p.name, [p], xl, modes)
+                infos.update(one)
+                obs.update(run_programs(tag + "-" + p.name, [p], one))
+            return infos, obs
+        return infos, run_programs(tag, progs, infos)
 
+    jobs = [("c%d" % i, ch) for i, ch in enumerate(chunks)]
     with ThreadPoolExecutor(max_workers=NCPU) as ex:
-        for name, info, obs in ex.map(work, programs):
-            built[name] = info
-            observations[name] = obs
+        for infos, obs in ex.map(work, jobs):
+            built.update(infos)
+            observations.update(obs)
+    for p in programs:
+        observations.setdefault(p.name, [])
     return xl, built, observations, complete[0]
 
 
@@ -132,12 +178,13 @@ def main():
     modes = list(hs.ALL_MODES)
     programs = pg.programs(c.tier)
     # trusted base first (in the background): gpuemu launch model + work-group extension
-    pre = ThreadPoolExecutor(max_workers=2)
+    pre = ThreadPoolExecutor(max_workers=3)
+    f_race = pre.submit(gpuemu.selftest_race, os.path.join(c.scratch, "gpuemu-race-selftest"), env)
     f_self = pre.submit(gpuemu.selftest, hs.VARIANT, os.path.join(c.scratch, "gpuemu-selftest"), env)
     f_wg = pre.submit(gpuemu.selftest_workgroup, hs.VARIANT, os.path.join(c.scratch, "gpuemu-wg-selftest"), env)
-    deadline = c.t0 + c.budget(600, 2400)
+    deadline = c.t0 + c.budget(2400, 10800)     # generous: the sandbox is shared; see wall_s / CPU seconds
     xl, built, observations, complete = build_and_run(c, programs, modes, env, log, deadline)
-    for f, what in ((f_self, "launch model"), (f_wg, "work-group extension")):
+    for f, what in ((f_self, "launch model"), (f_wg, "work-group extension"), (f_race, "race pass")):
         ok, text = f.result()
         if not ok:
             c.harness_error("gpuemu self-test (%s) failed - trusted base broken:\n%s" % (what, text))
@@ -151,6 +198,7 @@ def main():
     rejected = dict((m, 0) for m in modes)
     judged = dict((m, 0) for m in modes)
     nontrivial = set()
+    monitored = [0, 0]        # accesses seen by the race monitor, (program, backend, N) runs of the race pass
     evaluations = 0
     statuses = {}
     for p in programs:
@@ -161,6 +209,10 @@ def main():
                 rejected[m] += 1
         seen = set()
         for (m, n, status, cells, written, detail) in observations.get(p.name, []):
+            if status == "monitor":
+                monitored[0] += cells
+                monitored[1] += 1
+                continue
             if status == "ubsan":
                 continue
             evaluations += 1
@@ -180,6 +232,7 @@ def main():
             c.vacuity(judged[m] + sum(1 for p in programs if m in built[p.name]["compile_failures"] or "launcher" in built[p.name]["compile_failures"])
                       >= accepted[m], "backend %s: %d programs judged of %d accepted" % (m, judged[m], accepted[m]))
     c.vacuity(len(nontrivial) >= nprog, "fewer non-trivial (program, backend) results than programs")
+    c.vacuity(monitored[0] > 0 and monitored[1] >= 5 * 3, "the race pass monitored nothing")
     feats_seen = set(f for p in programs for f in p.feats)
     c.vacuity(feats_seen == set(pg.FEATURES), "not every feature occurs in a program")
 
@@ -189,13 +242,18 @@ def main():
         rule="base kernel + all subsets of size <= %d of the 16 features %s (%d programs, one template per feature, independent "
              "iterations by construction) x 7 backends x N in {0,1,3,4}; Serial/OpenMP translations compiled (ASan+UBSan) and "
              "run natively, CUDA/HIP/OpenCL/Metal/DPC++ translations run under gpuemu with work-group semantics; all output "
-             "arrays == sequential reading, inputs unchanged, no sanitizer report on exact-size heap arrays"
+             "arrays == sequential reading (work-items of a group run in ascending and in descending order), inputs unchanged, no "
+             "sanitizer report on exact-size heap arrays; race pass (base kernel and programs with @shared/@atomic/@exclusive): "
+             "device code recompiled with -fsanitize=thread, no two work-items of a launch may touch the same byte (one writing, "
+             "not both atomic) unless a barrier of their common group separates the accesses"
              % (1 if c.tier == "quick" else 2, ",".join(pg.FEATURES), nprog),
         samples=[programs[0].desc(), programs[len(programs) // 2].desc(), programs[-1].desc()],
         exhaustive=complete,
         programs=nprog,
         accepted_by_backend=accepted, rejected_by_backend=rejected, programs_judged_by_backend=judged,
         observations_by_status=statuses,
+        race_pass_runs=monitored[1], race_pass_monitored_accesses=monitored[0],
+        race_pass_programs=sum(1 for p in programs if race_pass(p)),
         translations_not_compiling=sum(len(built[p.name]["compile_failures"]) for p in programs),
         backends=modes, n_values=list(pg.NVALUES),
     )
@@ -203,6 +261,8 @@ def main():
         "GPU-style backends are judged under gpuemu (engines/gpuemu, trusted base, self-tested in this run on hand-written "
         "CUDA/HIP/OpenCL/Metal/SYCL kernels with barriers, group-shared memory and 3-D ids): work-items of a group are fibers "
         "that are only interleaved at barriers, groups run one after another; real drivers/device compilers are not covered",
+        "race pass: engines/gpuemu/race_runtime.cpp (trusted base, self-tested in this run) - the conflict rule is that of the "
+        "documented launch model (only work-group barriers order work-items), independent of the emulator's execution order",
         "the stub headers declare only documented device API (e.g. CUDA atomic functions with their documented signatures); a "
         "translation that does not compile against them is reported as does-not-compile",
         "OpenMP translation: g++ -fopenmp with a deterministic libgomp stand-in (3 virtual threads one after another); "
